@@ -162,6 +162,9 @@ func (m *Mailbox) encodeEnvelopWithLength(envelop vivid.Envelop) ([]byte, error)
 	if err != nil {
 		return nil, err
 	}
+	if len(data) > maxFrameLength {
+		return nil, vivid.ErrorInvalidMessageLength.WithMessage(fmt.Sprintf("length: %d", len(data)))
+	}
 	lengthBuf := make([]byte, 4)
 	binary.BigEndian.PutUint32(lengthBuf, uint32(len(data)))
 	return append(lengthBuf, data...), nil
